@@ -4,6 +4,7 @@ vs the Gallina model; the entry must have exactly the declared size, real bytes 
 real bytes."""
 import hashlib
 import itertools
+import os
 
 from vlib import sexp
 
@@ -99,12 +100,23 @@ def run(ctx):
     ctx.correspond("file_reader", cases, expected, observed, prop_ok,
                    nontrivial=lambda c, m: sexp.dumps(c[1]) if c[1][0] > 0 else None, describe=describe)
     ctx.extra["exhaustive"] = True
-    ctx.notes.append("function level only so far: the scheduled concurrent-writer runs of the real binary (truncate / append / unlink / "
-                     "replace at a chosen system call) are not built yet; vanish / type-change handling is covered by the walker model (C08)")
+    # the real binary with a deterministic concurrent writer
+    from vlib import dynrun, build
+    build.ensure_vsb()
+    dynrun.sweep(ctx, ctx.rng, None if thorough and os.environ.get("VERIF_DYN_FULL") else (900 if thorough else 60), {"C15", "C10"})
+    ctx.rule += (" Real runs: victim file of size in {1, 5000, 8192, 20000, 70000} x {nested, top-level item} x {no previous backup, previous with matching "
+                 "fingerprint, previous then touched} x every point of lstat/open/fstat/read#1..n+1 (n from an undisturbed run) x {truncate to 0 / half / "
+                 "just below / just above the offset, append 1000 / 24576, unlink, replace by directory / symlink, rewrite same / larger size, and "
+                 "shrink-then-grow in two steps}: %s of them; an LD_PRELOAD interposer performs the change right before the chosen call; the published "
+                 "backup is decoded independently, restored with `vsb restore`, and size / hash / prefix / neighbours are examined."
+                 % ("a sample of 900" if thorough else "a sample of 60"))
     ctx.assumptions += ["sha2 crate and hashlib compute SHA-512", "the underlying Read never returns more bytes than the buffer holds (rd_len)"]
 
 
 def replay(ctx, doc):
+    if "rules" in doc:
+        from vlib import dynrun
+        return dynrun.replay_case(ctx, doc, {"C15", "C10"})
     from vlib import impl
     c = sexp.loads(doc["case"])
     ok, why = prop_ok(c, impl.run_lines([c])[0])
